@@ -1115,6 +1115,10 @@ int do_rename (char *fr, char *t, int flag) {
       while (*p == '/' && (p > from))
         p--;
       n = p - from + 1;
+      if (n >= (ptrdiff_t) sizeof (newfrom))	/* no such path can exist: refuse it here, newfrom[] is a fixed buffer */
+        {
+          error ("*Path name too long in rename().\n");
+        }
       memcpy (newfrom, from, n);
       newfrom[n] = 0;
       from = newfrom;
